@@ -33,9 +33,14 @@ TRUSTED_BASE = [
     "operator abstraction: A and P enter the Coq model as functions vec -> vec (OCaml closures over Kernels.spmv / vmul); "
     "P.apply is assumed to overwrite its output",
     "harness preconditioner classes Pre<V> (copy / vmul / spmv) in harness/drv_krylov.cpp",
+    "binary64 correspondence: the Scalar instance Float64 of ocaml/krylov/ops_krylov.ml (OCaml floats, hand-written, not extracted); "
+    "-ffp-contract=off on the C++ side; dyadic case data (checked by the model-side parser)",
+    "idrs: harness op idrs.raw (the constructor's std::mt19937 statements) and the read-only access to the private member idrs::P "
+    "through an explicit template instantiation in harness/drv_krylov.cpp",
 ]
 ASSUMPTIONS = [
-    "C01-A1 (residual invariants) assume A and P linear and length preserving and a commutative ring with decidable equality; "
+    "C01-A1 (residual invariants: cg, bicgstab, bicgstabl, idrs) assume A (and P, except idrs) linear and length preserving and a commutative ring "
+    "with decidable equality; bicgstabl / idrs also that the cleared workspace vectors have the allocated length n; "
     "rounding clause of the property (double): tested with a long-double recomputation, not proved",
     "idrs: the raw draws of std::mt19937 / uniform_real_distribution in the constructor are an input of the model, reproduced by "
     "the harness op idrs.raw (same statements as the constructor; OMP_NUM_THREADS=1 in the runner); the exact build draws doubles and converts them",
